@@ -52,6 +52,7 @@ def c01(ck):
     r = gen_and_replay(ck, "GenC01", consts, timeout=1500)
     ck.exhaustive = True
     ck.extra["bounds"] = consts
+    random_programs(ck, 2000 if ck.quick else 40000, 8, seed_offset=101)
 
 
 @check("C13")
@@ -131,6 +132,7 @@ def c03(ck):
     gen_and_replay(ck, "GenC03", consts, timeout=1500)
     ck.exhaustive = True
     ck.extra["bounds"] = consts
+    random_programs(ck, 2000 if ck.quick else 40000, 8, seed_offset=303)
 
 
 @check("C12")
@@ -147,6 +149,7 @@ def c12(ck):
         gen_and_replay(ck, "GenC12", consts, timeout=1500)
         ck.extra.setdefault("bounds", {})[mode] = consts
     ck.exhaustive = True
+    random_programs(ck, 2000 if ck.quick else 40000, 8, seed_offset=1212)
 
 
 def dedupe_by_src(cases, merge_key=None):
@@ -664,3 +667,51 @@ def c07(ck):
     ck.replay(canc, args=["-workers", "1"], timeout=3000)
     ck.replay(dl, args=["-workers", "48"], timeout=3000, double_check=False)
     ck.exhaustive = True
+
+
+def random_programs(ck, n, depth, seed_offset=0):
+    """Direction B for program properties: random typed programs run on the real code, the recorded
+    (program, outcome, effect log) validated by TraceDef.tla (Def explains every record)."""
+    import os, json
+    trace = os.path.join(ck.scratch, "progs.ndjson")
+    ck.harness(["progs", "-n", str(n), "-depth", str(depth), "-seed", str(ck.seed + seed_offset), "-out", trace], timeout=3000)
+    t = ck.tlc("TraceDef", "SPECIFICATION Spec\nCHECK_DEADLOCK FALSE\n", env={"VERIF_TRACE": trace}, want_cases=False,
+               timeout=3000, heap="12g")
+    if t.exit != 0:
+        raise InfraError("TraceDef failed: exit %s\n%s" % (t.exit, tail(t.stdout_path)))
+    rej, abst = [], 0
+    with open(t.stdout_path, errors="replace") as f:
+        for line in f:
+            if line.startswith('"REJECT '):
+                rej.append(json.loads(line.strip())[7:])
+            elif line.startswith('"ABSTAIN '):
+                abst += 1
+    rows = None
+    ck.traces_validated += n - abst
+    ck.abstained += abst
+    ck.extra["random_programs"] = {"n": n, "depth": depth, "abstained": abst, "rejected": len(rej)}
+    if rej:
+        rows = [json.loads(l) for l in open(trace)]
+    for line in rej[:30]:
+        idx, _, why = line.partition(" ")
+        rec = rows[int(idx) - 1]
+        from vrun import show
+        ck.report("trace:" + why.split(":")[0], "random program: definition and real code disagree on %s" % why,
+                  {"case": {"kind": "prog", "forms": rec["forms"], "src": " ".join(show(f) for f in rec["forms"][6:]),
+                            "allow": {"k": "see-TraceDef"}}, "observed": rec["obs"]})
+    # binding self-test
+    def mut(rows_):
+        for r_ in rows_:
+            if r_["obs"]["eff"]:
+                r_["obs"]["eff"] = r_["obs"]["eff"][:-1]
+                return True
+        return False
+    import json as _j
+    rws = [_j.loads(l) for l in open(trace)][:200]
+    if mut(rws):
+        bad = trace + ".corrupt"
+        write_ndjson(bad, rws)
+        t2 = ck.tlc("TraceDef", "SPECIFICATION Spec\nCHECK_DEADLOCK FALSE\n", env={"VERIF_TRACE": bad}, want_cases=False, timeout=900)
+        txt = open(t2.stdout_path, errors="replace").read()
+        if '"REJECT ' not in txt:
+            raise InfraError("TraceDef accepted a corrupted record: the trace specification does not bind")
